@@ -11,7 +11,7 @@ OCLASS = "".join(a for a in T.AA if a not in XCLASS)
 
 def vec(seq, omega_only=False):
     from localcider.sequenceParameters import SequenceParameters as SP
-    o = SP(seq)
+    o = core.sp(seq)
     if omega_only:
         return {"Omega": o.get_Omega()}
     return {"kappa": o.get_kappa(), "delta": o.get_delta(), "deltaMax": o.get_deltaMax(), "SCD": o.get_SCD(),
